@@ -354,11 +354,12 @@ func (p *Prog) extractUnitTable(f *ssa.Function) (unitTable, int64, bool) {
 // timeoutEmitSite: one `fmt.Sprintf("%d<u>", value)` of the client's timeout encoder with the divisor its value was
 // obtained by.
 type timeoutEmitSite struct {
-	call    *ssa.Call
-	format  string
-	divisor int64
-	hasMin1 bool
-	other   string // an origin of the value that is neither the quotient nor a clamp constant
+	call      *ssa.Call
+	format    string
+	divisor   int64
+	hasMin1   bool
+	clampOnly bool   // the value is only ever the saturation constant
+	other     string // an origin of the value that is neither the quotient nor a clamp constant
 }
 
 func (p *Prog) timeoutEncoderFns() []*ssa.Function {
@@ -411,10 +412,16 @@ func (p *Prog) timeoutEmitSites() []timeoutEmitSite {
 						st.hasMin1 = true
 					case a.Op == "const" && a.Name == "99999999":
 						// saturation clamp of the coarsest unit
+						if st.divisor < 0 {
+							st.clampOnly = true
+						}
 					default:
 						st.other = a.String()
 					}
 				}
+			}
+			if st.divisor >= 0 {
+				st.clampOnly = false
 			}
 			out = append(out, st)
 		}
@@ -451,16 +458,22 @@ func ruleTimeoutTables(c *Ctx, r1, r2 string) {
 		}
 	})
 	pgt := p.MustFn("goat.parseGrpcTimeout")
-	var unitFn *ssa.Function
-	for _, a := range p.Anons(pgt) {
-		if len(a.Params) == 1 {
-			unitFn = a
+	// the unit table lives in parseGrpcTimeout, in a closure of it, or in a helper it calls: take the candidate
+	// that yields the largest table
+	unitFn := pgt
+	var tbl unitTable
+	var def int64 = -1
+	okT := false
+	cands := append([]*ssa.Function{pgt}, p.Anons(pgt)...)
+	for g := range p.reachableFns(pgt) {
+		cands = append(cands, g)
+	}
+	for _, cand := range cands {
+		t2, d2, ok2 := p.extractUnitTable(cand)
+		if len(t2) > len(tbl) {
+			unitFn, tbl, def, okT = cand, t2, d2, ok2
 		}
 	}
-	if unitFn == nil {
-		unitFn = pgt
-	}
-	tbl, def, okT := p.extractUnitTable(unitFn)
 	var emitted []string
 	for _, st := range sites {
 		emitted = append(emitted, fmt.Sprintf("%q÷%d", st.format, st.divisor))
@@ -471,6 +484,10 @@ func ruleTimeoutTables(c *Ctx, r1, r2 string) {
 		u := byte(0)
 		if strings.HasPrefix(st.format, "%d") && len(st.format) == 3 {
 			u = st.format[2]
+		}
+		if st.clampOnly {
+			c.check(r1, "unit-agreement:"+st.format+":clamp", u != 0 && tbl[u] != 0 && st.other == "", fmt.Sprintf("client formats the saturation constant as %q; the server knows unit %q", st.format, string(u)), p.ipos(st.call))
+			continue
 		}
 		c.check(r1, "unit-agreement:"+st.format, u != 0 && tbl[u] != 0 && tbl[u] == st.divisor && st.other == "", fmt.Sprintf("client formats %q after dividing by %d ns; server reads unit %q as %d ns %s", st.format, st.divisor, string(u), tbl[u], st.other), p.ipos(st.call))
 	}
@@ -572,7 +589,7 @@ func ruleTimeoutArithmetic(c *Ctx, r4, r5, r6 string) {
 	e := p.Origins()
 	// C08.4 floor and minimum
 	for _, st := range p.timeoutEmitSites() {
-		ok := st.divisor > 0 && st.other == ""
+		ok := (st.divisor > 0 || st.clampOnly) && st.other == ""
 		c.check(r4, "emitted-integer:"+st.format, ok, fmt.Sprintf("emitted value is the integer quotient of the remaining time by %d ns, or a clamp constant %s", st.divisor, st.other), p.ipos(st.call))
 	}
 	// the constant 1 only under fact ≤ 0
@@ -698,7 +715,9 @@ func ruleTimeoutWithinGrammar(c *Ctx, rule string) {
 		if val != nil {
 			fs := p.Facts(st.call)
 			why = "facts at the emission: " + fs.String()
-			if bounded(val, st.call, fs) {
+			if k, isC := constInt(stripConvert(val)); isC && k <= 99999999 {
+				ok = true
+			} else if bounded(val, st.call, fs) {
 				ok = true
 			} else if ph, isPhi := val.(*ssa.Phi); isPhi {
 				ok = true
@@ -723,7 +742,14 @@ func ruleTimeoutWithinGrammar(c *Ctx, rule string) {
 				}
 			}
 		}
-		c.check(rule, "emitted-value-fits-8-digits:"+st.format, ok, "the value formatted as "+st.format+" is at most 99999999 (the wire grammar's 8 digits; longer values are ignored by the reader): "+why, p.ipos(st.call))
+		c.check(rule, "emitted-value-fits-8-digits:"+st.format+clampSuffix(st), ok, "the value formatted as "+st.format+" is at most 99999999 (the wire grammar's 8 digits; longer values are ignored by the reader): "+why, p.ipos(st.call))
 	}
 	c.floor(rule, "timeout emission sites", len(sites), 1)
+}
+
+func clampSuffix(st timeoutEmitSite) string {
+	if st.clampOnly {
+		return ":clamp"
+	}
+	return ""
 }
